@@ -3,7 +3,7 @@ import PoxModel.Proofs.PacketExt
 # GRE (RFC 2784/2890 header without routing): checksum and round trip (C14 phase 2; core only)
 -/
 namespace Pox.Packet
-open Pox Pox.Layout Pox.Checksum
+open Pox Pox.PktLayout Pox.Checksum
 
 theorem be16_ex (n : Nat) (h : n < 65536) : ∃ a b, be16 n = [a, b] ∧ beDec [a, b] = n := by
   refine ⟨UInt8.ofNat (n / 256), UInt8.ofNat (n % 256), be16_eq n h, ?_⟩
